@@ -275,6 +275,9 @@ func (fr *frame) isLocalAddr(a ssa.Value) bool {
 
 var escapeCache = map[*ssa.Alloc]bool{}
 
+// nonRetaining: callees with a pure contract (no heap effect, cannot retain their arguments); set by the engine.
+var nonRetaining func(name string) bool
+
 func escapes(a *ssa.Alloc) bool {
 	if r, ok := escapeCache[a]; ok {
 		return r
@@ -315,7 +318,7 @@ func escapes(a *ssa.Alloc) bool {
 					case *ssa.DebugRef:
 					case *ssa.Call:
 						n := calleeName(&rr.Call)
-						if !(n == "builtin.append" || n == "builtin.copy" || isEffectFree(n)) {
+						if !(n == "builtin.append" || n == "builtin.copy" || isEffectFree(n) || (nonRetaining != nil && nonRetaining(n))) {
 							return true
 						}
 					default:
